@@ -642,7 +642,25 @@ def EmitOK (s0 s : Sess) : SRes → Prop
   | .err _ s' => Ext0 s0 s'
   | _ => True
 
-/-- the results are popped (never below the block's own stack) and re-emitted as literals -/
+/-- taking the top value off the block's own part of the stack (no reverse-log entry: bookkeeping of the build) -/
+theorem extL_dropTop {s0 s : Sess} (h : ExtL s0 s) (hm : s.m.ctx.mode = .metaEval) {v : Cell} {rest : List Cell}
+    (hd : s.m.ds = v :: rest) (hgt : s.m.ds.length > s.m.ctx.dsLen) :
+    ExtL s0 { s with m := { s.m with ds := rest } } := by
+  have hle : s0.m.ds.length ≤ rest.length := by
+    have := h.ok.ds hm
+    rw [hd] at hgt
+    simp only [List.length_cons] at hgt
+    omega
+  refine ⟨h.ext0.transport rfl rfl ⟨rfl, h.ext0.dictLen⟩ rfl rfl ?_ rfl rfl rfl rfl rfl (log_same rfl) ⟨rfl, rfl, rfl⟩,
+    h.ok, h.flows, ⟨?_, h.wf.rs, h.wf.ls, h.wf.ss⟩, h.fs, h.dmapLen⟩
+  · show hidOf rest _ = hidOf s.m.ds _
+    rw [hd, hidOf_cons _ _ _ hle]
+  · show s.m.ctx.dsLen ≤ rest.length
+    rw [hd] at hgt
+    simp only [List.length_cons] at hgt
+    omega
+
+/-- the results are taken off the stack (never below the block's own part) and re-emitted as literals -/
 theorem extL_emitResults (f : Nat) : ∀ {s0 s : Sess}, ExtL s0 s → s.m.ctx.mode = .metaEval →
     EmitOK s0 s (emitResults f s) := by
   induction f with
@@ -651,26 +669,22 @@ theorem extL_emitResults (f : Nat) : ∀ {s0 s : Sess}, ExtL s0 s → s.m.ctx.mo
     intro s0 s h hm
     simp only [emitResults]
     split
-    · obtain ⟨seg, r⟩ := popData_rev s.m
-      obtain ⟨hp, hmk⟩ := extL_sealed h hm _ (r.sealed h.wf)
-      have hctx : s.m.popData.2.ctx = s.m.ctx := r.ctx
+    · rename_i hgt
       split
-      · rename_i v m heq
-        rw [heq] at hp hctx
-        simp only at hp hctx
+      · rename_i v rest hd
+        have hp := extL_dropTop h hm hd (by omega)
         have he := extL_emit (Mach.loadValueOp v) hp
-        have := ih he (by show m.ctx.mode = _; rw [hctx]; exact hm)
+        have := ih he hm
         revert this
-        generalize emitResults f (({ s with m := m } : Sess).emit (Mach.loadValueOp v)) = r'
+        generalize emitResults f (({ s with m := { s.m with ds := rest } } : Sess).emit (Mach.loadValueOp v)) = r'
         intro this
         cases r' with
-        | ok s' => exact ⟨this.1, by rw [this.2.1]; exact hctx, this.2.2⟩
+        | ok s' => exact ⟨this.1, this.2.1, this.2.2⟩
         | err e s' => exact this
         | panic p s' => trivial
         | unsupported u => trivial
         | timeout => trivial
-      · rename_i e m heq; rw [heq] at hp; exact hp.ext0
-      · trivial
+      · exact ⟨h, rfl, rfl⟩
     · exact ⟨h, rfl, rfl⟩
 
 theorem extL_setNested {s0 s : Sess} (h : ExtL s0 s) (l : List Ctx)
